@@ -213,7 +213,7 @@ func awaitCond(cond func() bool, alive func() (bool, string)) outcome {
 		if cond() {
 			return okOutcome("")
 		}
-		if alive != nil && i%512 == 511 && time.Since(start) > 100*time.Millisecond {
+		if alive != nil && (i%512 == 511 || (i > 2040 && i%8 == 0)) && time.Since(start) > 100*time.Millisecond {
 			if ok, who := alive(); !ok && !cond() {
 				return outcome{"dead", who}
 			}
@@ -224,9 +224,16 @@ func awaitCond(cond func() bool, alive func() (bool, string)) outcome {
 		case i < 2000:
 			time.Sleep(20 * time.Microsecond)
 		default:
-			time.Sleep(2 * time.Millisecond)
+			// back off: cond may be a goroutine dump, which stops the world and
+			// has to unwind every stack - it must not starve a receiver that is
+			// busy (deep recursion, a long run of frames)
+			d := time.Duration(i-1999) * 2 * time.Millisecond
+			if d > 250*time.Millisecond {
+				d = 250 * time.Millisecond
+			}
+			time.Sleep(d)
 		}
-		if i%64 == 63 && time.Since(start) > hardWait {
+		if (i%64 == 63 || i > 2000) && time.Since(start) > hardWait {
 			return outcome{"stall", fmt.Sprintf("no progress for %v", hardWait)}
 		}
 	}
